@@ -41,7 +41,8 @@ func (ctx *RenderContext) ApplyFilter(name string, value interface{}, args ...in
 		b.Grow(len(str) + len(str)/8)
 
 		// Single-pass iteration is much more efficient than nested Replace calls
-		for _, c := range str {
+		for i := 0; i < len(str); i++ {
+			c := str[i]
 			switch c {
 			case '&':
 				b.WriteString("&amp;")
@@ -54,7 +55,7 @@ func (ctx *RenderContext) ApplyFilter(name string, value interface{}, args ...in
 			case '\'':
 				b.WriteString("&#39;")
 			default:
-				b.WriteRune(c)
+				b.WriteByte(c)
 			}
 		}
 
